@@ -38,6 +38,11 @@ def make_classes():
     class A:
         def __init__(self, x: int) -> None:
             self.x = x
+
+        @classmethod
+        def _yatiml_sweeten(cls, node):
+            # visible only where A itself is registered with the dump function
+            node.set_attribute('kind', 'base')
     A1 = A
 
     class A:    # noqa: a DIFFERENT class with the same name
@@ -82,6 +87,8 @@ def dump_arg(name, cl):
         return cl['A2']('s')
     if name == 'enumr':
         return cl['E'].r
+    if name == 'objS1':
+        return cl['S1'](3)
     raise MachineryError(name)
 
 
@@ -419,6 +426,9 @@ def run(tier, replay=None):
                 for ocs, okind in created:
                     if (okind == h['kind'] and ocs != cs and
                             {names[x] for x in ocs} & {names[x] for x in cs}):
+                        sc += 5
+                    if okind != 'load' and h['kind'] != 'load' and ocs != cs \
+                            and set(ocs) & set(cs):
                         sc += 5
                 created.append((cs, h['kind']))
             elif h['op'] == 'call':
